@@ -116,12 +116,42 @@ def opCnf (j : Json) : Except String Json := do
   pure (Json.mkObj [("cnf", jformula f), ("nvars", jnat nvars), ("decoded", jlist jnats dec),
                     ("sat", Json.arr (sats.map Json.bool).toArray), ("count", cnt)])
 
+
+/-! ### C14: plaquette spanning tree, n_to_ujk_flipped -/
+
+def opTree (j : Json) : Except String Json := do
+  let L ← parseLat j
+  if !L.noSelfLoop then throw "precondition:self-loop"
+  let R := rotOfTable (rotTable L)
+  if anyStuck L R then throw "stuck"
+  let ps := (plaquettes L R).map (·.darts)
+  if ps.length == 0 then throw "precondition:no-plaquette"
+  let S0 := Tree.sysOf ps
+  -- tabulate the edge table once (same function, array-backed)
+  let sidesArr := ((List.range L.E).map S0.sides).toArray
+  let S : Tree.Sys := { S0 with sides := fun e => sidesArr.getD e (none, none) }
+  let orders ← match fieldOpt j "orders" with | some o => listOf nats o | none => pure []
+  let ords : Nat → List Nat → List Nat := fun n b =>
+    match orders[n]? with | some idx => Tree.ordOfIndices idx b | none => b
+  let r := Tree.run S ords (S.F - 1)
+  let tree := Tree.chosen' r
+  let u ← match fieldOpt j "u" with | some u => ints u | none => pure (List.replicate L.E 1)
+  if u.length != L.E then throw "u-length"
+  let ns ← match fieldOpt j "ns" with | some o => nats o | none => pure []
+  if ns.any (fun n => n ≥ 2 ^ tree.length) then throw "precondition:n-range"
+  let res := ns.map fun n =>
+    let u' := Tree.nToUjkFlipped n (uOf u) tree
+    Json.mkObj [("u", jints ((List.range L.E).map u')), ("fluxes", jints (ps.map fun w => flux u' w))]
+  pure (Json.mkObj [("F", jnat S.F), ("tree", jlist jopt r.edgesIn), ("plaq_in", jnats r.plaqIn),
+                    ("flipped", Json.arr res.toArray)])
+
 def dispatch (op : String) (j : Json) : Except String Json :=
   match op with
   | "plaquettes" => opPlaquettes j
   | "tables" => opTables j
   | "fluxes" => opFluxes j
   | "cnf" => opCnf j
+  | "tree" => opTree j
   | _ => throw "bad-op"
 
 def handle (line : String) : String :=
